@@ -23,8 +23,8 @@ PoolQuick == {
 \* two names plus the dangling one, no own errors, plus the quick pool
 PoolMid ==
   PoolQuick \cup
-  { Cn(d, i, FALSE, FALSE) : d \in {NoDecl} \cup { D(n, v) : n \in {"A", "B"}, v \in {"v0", "v1"} },
-                              i \in { {}, {"A"}, {"B"}, {"D"} } }
+  { Cn(d, i, FALSE, FALSE) : d \in { D(n, v) : n \in {"A", "B"}, v \in {"v0", "v1"} },
+                              i \in { {"B"}, {"D"} } }
 
 \* thorough pool: every declaration x every import set of size <= 2 that does not import its own class name
 Names == {"A", "B", "C"}
